@@ -4,6 +4,7 @@ import (
 	"fmt"
 	"slices"
 	"sort"
+	"strings"
 	"time"
 
 	"github.com/csgura/fp"
@@ -93,7 +94,7 @@ func refDropWhile(xs []int, p func(int) bool) []int {
 
 // c20Op draws one combinator. finiteOnly excludes nothing at present (all references work on a prefix).
 func c20Op(r *sim.Run) c20op {
-	k := r.Choose(22, "comb")
+	k := r.Choose(25, "comb")
 	a := r.Choose(5, "arg")
 	p := c20pred(a)
 	not := func(v int) bool { return !p(v) }
@@ -216,6 +217,24 @@ func c20Op(r *sim.Run) c20op {
 			}
 			return out
 		}}
+	case 22:
+		return c20op{"iterator.Ap", func(it fp.Iterator[int]) fp.Iterator[int] {
+			return iterator.Ap(iterator.Of(fp.Func1[int, int](mapf)), it)
+		}, func(xs []int) []int { return refMap(xs, mapf) }}
+	case 23:
+		return c20op{"iterator.Map2", func(it fp.Iterator[int]) fp.Iterator[int] {
+			return iterator.Map2(iterator.Of(a), it, func(x, y int) int { return x*1000 + y })
+		}, func(xs []int) []int { return refMap(xs, func(v int) int { return a*1000 + v }) }}
+	case 24:
+		return c20op{"iterator.Compose", func(it fp.Iterator[int]) fp.Iterator[int] {
+			return iterator.Compose(func(int) fp.Iterator[int] { return it }, func(v int) fp.Iterator[int] { return iterator.Of(v, v+1000) })(a)
+		}, func(xs []int) []int {
+			out := []int{}
+			for _, v := range xs {
+				out = append(out, v, v+1000)
+			}
+			return out
+		}}
 	case 20:
 		return c20op{"Lift", func(it fp.Iterator[int]) fp.Iterator[int] { return iterator.Lift(mapf)(it) }, func(xs []int) []int { return refMap(xs, mapf) }}
 	default:
@@ -235,7 +254,41 @@ func c20Op(r *sim.Run) c20op {
 }
 
 var c20SafeOnUnbounded = map[string]bool{"Map": true, "iterator.Map": true, "TapEach": true, "Scan": true, "ZipWithIndex": true,
-	"Zip(Range)": true, "Zip3": true, "Lift": true, "iterator.Concat(head)": true, "Flatten": true}
+	"Zip(Range)": true, "Zip3": true, "Lift": true, "iterator.Concat(head)": true, "Flatten": true, "iterator.Ap": true, "iterator.Map2": true, "iterator.Compose": true}
+
+// c20OpaqueOp: iterator-producing functions whose CONTENT the property does not fix (the Flap family applies every
+// function of an iterator of functions to one shared, one-shot argument iterator). ref == nil: the reference is what a
+// twin of the same pipeline delivers when it is drained in the canonical way (HasNext, Next, HasNext, ...); the scripted
+// call pattern - repeated HasNext, blind Next at the end, extension - must deliver exactly that.
+func c20OpaqueOp(r *sim.Run) c20op {
+	a := r.Choose(5, "arg")
+	switch r.Choose(5, "opaque") {
+	case 0:
+		return c20op{"iterator.FlapMap", func(it fp.Iterator[int]) fp.Iterator[int] {
+			return iterator.FlapMap(func(v, b int) int { return v*3 + b }, it)(a)
+		}, nil}
+	case 1:
+		return c20op{"iterator.Method1", func(it fp.Iterator[int]) fp.Iterator[int] {
+			return iterator.Method1(it, func(v, b int) int { return v*3 + b })(a)
+		}, nil}
+	case 2:
+		return c20op{"iterator.Method2", func(it fp.Iterator[int]) fp.Iterator[int] {
+			return iterator.Method2(it, func(v, b, c int) int { return v*3 + b + 10*c })(a, 1)
+		}, nil}
+	case 3:
+		return c20op{"iterator.Flap2", func(it fp.Iterator[int]) fp.Iterator[int] {
+			fs := iterator.Map(it, func(v int) fp.Func1[int, fp.Func1[int, int]] {
+				return func(b int) fp.Func1[int, int] { return func(c int) int { return v*3 + b + 10*c } }
+			})
+			return iterator.Flap2(fs)(a)(1)
+		}, nil}
+	default:
+		return c20op{"iterator.Flap", func(it fp.Iterator[int]) fp.Iterator[int] {
+			fs := iterator.Map(it, func(v int) fp.Func1[int, int] { return func(b int) int { return v*3 + b } })
+			return iterator.Flap(fs)(a)
+		}, nil}
+	}
+}
 
 func refMap(xs []int, f func(int) int) []int {
 	out := make([]int, len(xs))
@@ -315,6 +368,10 @@ type c20script struct {
 	// and goes on reading the result
 	extendAt   int
 	extendKind int
+	// rangeAt >= 0: at this position the consumer, after its HasNext calls (so with a look-ahead pending), does not call
+	// Next but ranges over All() and breaks after rangeTake elements; it then goes on with HasNext/Next
+	rangeAt   int
+	rangeTake int
 }
 
 func c20Script(r *sim.Run, maxDemand int) c20script {
@@ -332,6 +389,11 @@ func c20Script(r *sim.Run, maxDemand int) c20script {
 	if r.Bool(1, 5, "extendWhileReading") {
 		s.extendAt = r.Choose(maxDemand+1, "extendAt")
 		s.extendKind = r.Choose(3, "extendKind")
+	}
+	s.rangeAt = -1
+	if r.Bool(1, 5, "rangeWhileReading") {
+		s.rangeAt = r.Choose(maxDemand+1, "rangeAt")
+		s.rangeTake = 1 + r.Choose(3, "rangeTake")
 	}
 	s.gcBefore = -1
 	if r.Bool(1, 40, "gcFault") {
@@ -418,6 +480,35 @@ func (c *c20side) consume(r *sim.Run, t *sim.Task, onCall func()) {
 				r.Violate("next-fabricated", "%s: Next on the exhausted iterator returned %d instead of panicking (delivered %v)", c.name, v, c.got)
 			}
 			return
+		}
+		if i == c.sc.rangeAt {
+			// a range over All() in the middle of a HasNext/Next conversation (early break)
+			var seen []int
+			take := c.sc.rangeTake
+			if !c.complete {
+				take = min(take, len(c.ref)-i) // only a prefix of the unbounded sequence is known
+			}
+			p := call(func() {
+				for v := range c.it.All() {
+					seen = append(seen, v)
+					if len(seen) >= take {
+						break
+					}
+				}
+			})
+			r.Probe("ranges-over-All-in-the-middle-of-a-script")
+			if p != nil {
+				r.Violate("next-panic", "%s: ranging over All() at position %d (after %d HasNext call(s)) panicked after %v: %v", c.name, i, nHas, seen, p)
+				return
+			}
+			want := c.ref[i:min(len(c.ref), i+take)]
+			c.got = append(c.got, seen...)
+			if fmt.Sprint(seen) != fmt.Sprint(want) {
+				r.Violate("wrong-element", "%s: ranging over All() at position %d (break after %d) delivered %v, reference %v (all delivered %v, reference %v)", c.name, i, take, seen, want, c.got, c.ref)
+				return
+			}
+			i += len(seen) - 1
+			continue
 		}
 		var v int
 		if p := call(func() { v = c.it.Next() }); p != nil {
@@ -590,89 +681,148 @@ func c20OneSided(r *sim.Run) {
 	for i := range xs {
 		xs[i] = r.Choose(10, "x")
 	}
-	var it fp.Iterator[int]
-	ref := slices.Clone(xs)
-	base := r.Choose(16, "base")
-	desc := ""
-	switch base {
-	case 0:
-		it, desc = iterator.FromSlice(xs), "FromSlice"
-	case 1:
-		it, desc = iterator.FromSeq(fp.Seq[int](xs)), "FromSeq"
-	case 2:
-		it, desc = iterator.Of(xs...), "Of"
-	case 3:
-		it, desc = fp.IteratorOfSeq(xs), "IteratorOfSeq"
-	case 4:
-		it, desc = iterator.FromList(list.Of(xs...)), "FromList"
-	case 5:
-		it, desc = iterator.ReverseSeq(xs), "ReverseSeq"
-		slices.Reverse(ref)
-	case 6:
-		it, desc = iterator.Range(2, 2+n), "Range"
-		ref = ref[:0]
-		for i := 2; i < 2+n; i++ {
-			ref = append(ref, i)
+	base := r.Choose(19, "base")
+	// mkBase builds the source iterator afresh on every call (a pipeline whose content the property does not fix is
+	// compared with a twin of itself, see c20OpaqueOp)
+	mkBase := func() (it fp.Iterator[int], ref []int, desc string) {
+		ref = slices.Clone(xs)
+		switch base {
+		case 0:
+			it, desc = iterator.FromSlice(xs), "FromSlice"
+		case 1:
+			it, desc = iterator.FromSeq(fp.Seq[int](xs)), "FromSeq"
+		case 2:
+			it, desc = iterator.Of(xs...), "Of"
+		case 3:
+			it, desc = fp.IteratorOfSeq(xs), "IteratorOfSeq"
+		case 4:
+			it, desc = iterator.FromList(list.Of(xs...)), "FromList"
+		case 5:
+			it, desc = iterator.ReverseSeq(xs), "ReverseSeq"
+			slices.Reverse(ref)
+		case 6:
+			it, desc = iterator.Range(2, 2+n), "Range"
+			ref = ref[:0]
+			for i := 2; i < 2+n; i++ {
+				ref = append(ref, i)
+			}
+		case 7:
+			it, desc = iterator.RangeClosed(2, 1+n), "RangeClosed"
+			ref = ref[:0]
+			for i := 2; i <= 1+n; i++ {
+				ref = append(ref, i)
+			}
+		case 8:
+			it, desc = iterator.Pull(slices.Values(xs)), "Pull"
+		case 9:
+			if n > 0 {
+				it, ref, desc = iterator.FromOption(fp.Some(xs[0])), []int{xs[0]}, "FromOption(Some)"
+			} else {
+				it, ref, desc = iterator.FromOption(fp.None[int]()), []int{}, "FromOption(None)"
+			}
+		case 10:
+			if n > 0 {
+				v := xs[0]
+				it, ref, desc = iterator.FromPtr(&v), []int{v}, "FromPtr"
+			} else {
+				it, ref, desc = iterator.FromPtr[int](nil), []int{}, "FromPtr(nil)"
+			}
+		case 11:
+			it, ref, desc = iterator.Empty[int](), []int{}, "Empty"
+		case 12:
+			it, desc = seq.Iterator(fp.Seq[int](xs)), "seq.Iterator"
+		case 13:
+			if n > 0 {
+				it, ref, desc = option.Iterator(fp.Some(xs[0])), []int{xs[0]}, "option.Iterator(Some)"
+			} else {
+				it, ref, desc = option.Iterator(fp.None[int]()), []int{}, "option.Iterator(None)"
+			}
+		case 14:
+			if n > 0 {
+				it, ref, desc = try.Iterator(fp.Success(xs[0])), []int{xs[0]}, "try.Iterator(Success)"
+			} else {
+				it, ref, desc = try.Iterator(fp.Failure[int](fmt.Errorf("x"))), []int{}, "try.Iterator(Failure)"
+			}
+		case 16:
+			it, desc = iterator.List(list.Of(xs...)), "iterator.List"
+		case 17:
+			it, desc = iterator.ReverseSlice(xs), "ReverseSlice"
+			slices.Reverse(ref)
+		case 18:
+			if n > 0 {
+				it, ref, desc = iterator.ComposePure(func(v int) int { return v + 1 })(xs[0]), []int{xs[0] + 1}, "ComposePure"
+			} else {
+				it, ref, desc = iterator.ComposePure(func(v int) int { return v + 1 })(0), []int{1}, "ComposePure"
+			}
+		default:
+			src := &c20src{r: r, n: n}
+			it, desc = src.iter(), "MakeIterator"
+			ref = ref[:0]
+			for i := 0; i < n; i++ {
+				ref = append(ref, c20val(i))
+			}
 		}
-	case 7:
-		it, desc = iterator.RangeClosed(2, 1+n), "RangeClosed"
-		ref = ref[:0]
-		for i := 2; i <= 1+n; i++ {
-			ref = append(ref, i)
-		}
-	case 8:
-		it, desc = iterator.Pull(slices.Values(xs)), "Pull"
-	case 9:
-		if n > 0 {
-			it, ref, desc = iterator.FromOption(fp.Some(xs[0])), []int{xs[0]}, "FromOption(Some)"
+		return
+	}
+	var ops []c20op
+	opaque := false
+	for k := r.Choose(5, "pipeLen"); k > 0; k-- {
+		if r.Bool(1, 6, "opaqueOp") {
+			ops = append(ops, c20OpaqueOp(r))
+			opaque = true
 		} else {
-			it, ref, desc = iterator.FromOption(fp.None[int]()), []int{}, "FromOption(None)"
-		}
-	case 10:
-		if n > 0 {
-			v := xs[0]
-			it, ref, desc = iterator.FromPtr(&v), []int{v}, "FromPtr"
-		} else {
-			it, ref, desc = iterator.FromPtr[int](nil), []int{}, "FromPtr(nil)"
-		}
-	case 11:
-		it, ref, desc = iterator.Empty[int](), []int{}, "Empty"
-	case 12:
-		it, desc = seq.Iterator(fp.Seq[int](xs)), "seq.Iterator"
-	case 13:
-		if n > 0 {
-			it, ref, desc = option.Iterator(fp.Some(xs[0])), []int{xs[0]}, "option.Iterator(Some)"
-		} else {
-			it, ref, desc = option.Iterator(fp.None[int]()), []int{}, "option.Iterator(None)"
-		}
-	case 14:
-		if n > 0 {
-			it, ref, desc = try.Iterator(fp.Success(xs[0])), []int{xs[0]}, "try.Iterator(Success)"
-		} else {
-			it, ref, desc = try.Iterator(fp.Failure[int](fmt.Errorf("x"))), []int{}, "try.Iterator(Failure)"
-		}
-	default:
-		src := &c20src{r: r, n: n}
-		it, desc = src.iter(), "MakeIterator"
-		ref = ref[:0]
-		for i := 0; i < n; i++ {
-			ref = append(ref, c20val(i))
+			ops = append(ops, c20Op(r))
 		}
 	}
-	for k := r.Choose(5, "pipeLen"); k > 0; k-- {
-		op := c20Op(r)
+	build := func() (it fp.Iterator[int], ref []int, desc string) {
+		it, ref, desc = mkBase()
+		for _, op := range ops {
+			func() {
+				defer func() {
+					if e := recover(); e != nil {
+						r.Violate("combinator-panic", "%s after %s panicked: %v", op.name, desc, e)
+					}
+				}()
+				it = op.apply(it)
+			}()
+			if op.ref != nil && ref != nil {
+				ref = op.ref(ref)
+			} else {
+				ref = nil
+			}
+			desc += "." + op.name
+		}
+		return
+	}
+	it, ref, desc := build()
+	if r.Failed() {
+		return
+	}
+	if opaque {
+		// reference: a twin of the pipeline, drained in the canonical way
+		twin, _, _ := build()
+		ref = []int{}
 		func() {
 			defer func() {
 				if e := recover(); e != nil {
-					r.Violate("combinator-panic", "%s after %s panicked: %v", op.name, desc, e)
+					r.Violate("iterator-panic", "%s: draining the pipeline with alternating HasNext/Next panicked after %v: %v", desc, ref, e)
 				}
 			}()
-			it = op.apply(it)
+			for twin.HasNext() {
+				ref = append(ref, twin.Next())
+				if len(ref) > 10000 {
+					r.Violate("hasnext-wrong", "%s: a pipeline over %d elements delivered more than 10000", desc, n)
+					return
+				}
+			}
 		}()
-		ref = op.ref(ref)
-		desc += "." + op.name
+		if r.Failed() {
+			return
+		}
+		r.Probe("pipelines compared with a canonically drained twin")
 	}
-	if r.Failed() {
+	if r.Bool(1, 8, "terminal") {
+		c20Terminal(r, it, ref, desc)
 		return
 	}
 	side := &c20side{name: desc, it: it, ref: ref, complete: true, sc: c20Script(r, len(ref)+3), extendable: true}
@@ -680,6 +830,90 @@ func c20OneSided(r *sim.Run) {
 	r.MixFingerprintS(fmt.Sprint(xs, side.sc))
 	r.Logf("pipeline: %s over %v, script %v, reference %v", desc, xs, side.sc, ref)
 	r.Go("consumer", func(t *sim.Task) { side.consume(r, t, func() {}) })
+	c20Quiesce(r)
+}
+
+// c20Terminal: the draining methods of fp.Iterator as consumers (Count, Foreach, Exists, ForAll, MakeString, Find, the
+// range function All with an early break), followed by a drain of whatever the method left in the iterator.
+func c20Terminal(r *sim.Run, it fp.Iterator[int], ref []int, desc string) {
+	k := r.Choose(7, "terminalKind")
+	a := r.Choose(5, "terminalArg")
+	p := c20pred(a)
+	names := [...]string{"Count", "Foreach", "Exists", "ForAll", "MakeString", "Find", "All+break"}
+	r.MixFingerprintS(desc + "|" + names[k])
+	r.Logf("pipeline: %s, terminal %s(p%d), reference %v", desc, names[k], a, ref)
+	r.Go("consumer", func(t *sim.Task) {
+		var got, want string
+		rest := []int{} // what the method must leave in the iterator
+		defer func() {
+			if e := recover(); e != nil {
+				r.Gate("ret")
+				r.Violate("iterator-panic", "%s: %s panicked: %v", desc, names[k], e)
+			}
+		}()
+		firstIdx := func(q func(int) bool) int {
+			for i, v := range ref {
+				if q(v) {
+					return i
+				}
+			}
+			return -1
+		}
+		switch k {
+		case 0:
+			got, want = fmt.Sprint(it.Count()), fmt.Sprint(len(ref))
+		case 1:
+			seen := []int{}
+			it.Foreach(func(v int) { seen = append(seen, v) })
+			got, want = fmt.Sprint(seen), fmt.Sprint(ref)
+		case 2:
+			i := firstIdx(p)
+			got, want = fmt.Sprint(it.Exists(p)), fmt.Sprint(i >= 0)
+			if i >= 0 {
+				rest = ref[i+1:]
+			}
+		case 3:
+			i := firstIdx(func(v int) bool { return !p(v) })
+			got, want = fmt.Sprint(it.ForAll(p)), fmt.Sprint(i < 0)
+			if i >= 0 {
+				rest = ref[i+1:]
+			}
+		case 4:
+			parts := make([]string, len(ref))
+			for i, v := range ref {
+				parts[i] = fmt.Sprint(v)
+			}
+			got, want = it.MakeString(","), strings.Join(parts, ",")
+		case 5:
+			i := firstIdx(p)
+			got = fmt.Sprint(it.Find(p))
+			if i >= 0 {
+				want, rest = fmt.Sprint(fp.Some(ref[i])), ref[i+1:]
+			} else {
+				want = fmt.Sprint(fp.None[int]())
+			}
+		default:
+			seen := []int{}
+			for v := range it.All() {
+				seen = append(seen, v)
+				if len(seen) > a {
+					break
+				}
+			}
+			m := min(a+1, len(ref))
+			got, want, rest = fmt.Sprint(seen), fmt.Sprint(ref[:m]), ref[m:]
+		}
+		r.Gate("ret")
+		if got != want {
+			r.Violate("wrong-element", "%s: %s(p%d) gives %s, reference %s (elements %v)", desc, names[k], a, got, want, ref)
+			return
+		}
+		left := it.ToSeq()
+		r.Gate("ret")
+		if fmt.Sprint([]int(left)) != fmt.Sprint(rest) {
+			r.Violate("wrong-element", "%s: after %s(p%d) the iterator still delivers %v, reference %v (elements %v)", desc, names[k], a, left, rest, ref)
+		}
+	})
 	c20Quiesce(r)
 }
 
